@@ -6,7 +6,7 @@ import Mutiny.Proofs.LockRingProps
 With every other thread idle the ring behaves like a bounded FIFO queue: `send` returns `sent (length + 1)` while there
 is room and `full` (changing nothing) otherwise; `recv` returns the oldest element or `empty`.  Step counts from the
 model: `pLock → pCheck → pWrite → pPublish → pUnlocked → done` (5), `pLock → pCheck → pFullUnlocked → done` (3),
-`cLock → cLen → cRead → cRelease → cUnlocked → done` (5), `cLock → cLen → cEmptyUnlocked → done` (3).
+`cLock → cLenT → cLen → cRead → cRelease → cUnlocked → done` (6), `cLock → cLenT → cLen → cEmptyUnlocked → done` (4).
 -/
 
 namespace Mutiny.LockRing
@@ -45,10 +45,10 @@ theorem c16_solo_send {n : Nat} {s : St} (hn : 0 < n) (h : Reachable n s) (t v :
 theorem c16_solo_recv {n : Nat} {s : St} (hn : 0 < n) (h : Reachable n s) (t : Nat)
     (ho : ∀ u, u ≠ t → s.thr u = .idle) (ht : s.thr t = .idle) :
     (∀ x xs, abs s = x :: xs →
-      let s' := run s [.recv t, .step t, .step t, .step t, .step t, .step t]
+      let s' := run s [.recv t, .step t, .step t, .step t, .step t, .step t, .step t]
       s'.thr t = .done (.got x) ∧ abs s' = xs ∧ s'.locked = false ∧ (∀ u, u ≠ t → s'.thr u = .idle))
     ∧ (abs s = [] →
-      let s' := run s [.recv t, .step t, .step t, .step t]
+      let s' := run s [.recv t, .step t, .step t, .step t, .step t]
       s'.thr t = .done .empty ∧ abs s' = abs s ∧ s'.buf = s.buf ∧ s'.tail = s.tail ∧ s'.head = s.head
         ∧ s'.locked = s.locked ∧ s'.accepted = s.accepted ∧ s'.delivered = s.delivered
         ∧ (∀ u, u ≠ t → s'.thr u = .idle)) := by
@@ -56,12 +56,12 @@ theorem c16_solo_recv {n : Nat} {s : St} (hn : 0 < n) (h : Reachable n s) (t : N
   constructor
   · intro x xs hne
     obtain ⟨e, h1, h2⟩ := solo_recv_ok_of_inv hi t ho ht hne
-    have e' : run s [.recv t, .step t, .step t, .step t, .step t, .step t] = gotState s t := e
+    have e' : run s [.recv t, .step t, .step t, .step t, .step t, .step t, .step t] = gotState s t := e
     simp only [e']
     exact ⟨h1, h2, rfl, fun u hu => by simp [gotState, hu, ho u hu]⟩
   · intro hemp
     have e := solo_recv_empty_of_inv hi t ho ht hemp
-    have e' : run s [.recv t, .step t, .step t, .step t] = setThr s t (.done .empty) := e
+    have e' : run s [.recv t, .step t, .step t, .step t, .step t] = setThr s t (.done .empty) := e
     simp only [e']
     exact ⟨by simp, rfl, rfl, rfl, rfl, rfl, rfl, rfl, fun u hu => by simp [hu, ho u hu]⟩
 
@@ -83,7 +83,7 @@ theorem c16_fill_drain {n : Nat} {s : St} (hn : 0 < n) (h : Reachable n s) (t : 
   intro hfull w
   exact soloSend_full_of_inv (reachable_inv hn hr) t w f3 (by rw [f2, f4, hemp]; simpa using hfull)
 
-/-- Drain: from a quiescent state whose abstract queue is `xs`, `drain t s xs.length` (`soloRecv = recv; step×5; record
+/-- Drain: from a quiescent state whose abstract queue is `xs`, `drain t s xs.length` (`soloRecv = recv; step×6; record
 result; ack`) returns exactly `xs` in order, ends quiescent with an empty queue, and one more `recv` reports `empty`. -/
 theorem c16_drain {n : Nat} {s : St} (hn : 0 < n) (h : Reachable n s) (t : Nat)
     (hidle : ∀ u, s.thr u = .idle) (xs : List Nat) (hxs : abs s = xs) :
@@ -124,7 +124,7 @@ example :
     ∧ (run s [.send 1 8, .step 1, .step 1]).thr 1 ≠ .done .full
     ∧ (run s [.send 1 8, .step 1, .step 1, .step 1]).thr 1 = .done .full
     ∧ (run (init 1) [.send 0 7, .step 0, .step 0, .step 0, .step 0]).thr 0 ≠ .done (.sent 1)
-    ∧ (run (init 1) [.recv 0, .step 0, .step 0, .step 0]).thr 0 = .done .empty := by
+    ∧ (run (init 1) [.recv 0, .step 0, .step 0, .step 0, .step 0]).thr 0 = .done .empty := by
   refine ⟨fun u => ?_, by decide, by decide, by decide, by decide, by decide⟩
   by_cases hu : u = 0 <;> simp [run, apply, step, init, hu]
 
